@@ -13,7 +13,7 @@ use crate::rng::Rng;
 use std::io::Cursor;
 
 /// A bzip2 stream of two blocks (level 1: 100 kB blocks), built once.
-fn multi_block_stream() -> &'static [u8] {
+pub(crate) fn multi_block_stream() -> &'static [u8] {
     static S: std::sync::OnceLock<Vec<u8>> = std::sync::OnceLock::new();
     S.get_or_init(|| {
         let mut rng = Rng::derive(0x9015_0A11, 78, 0);
@@ -75,6 +75,7 @@ pub fn run(index: u64) {
                 let b = Sweep::new(2, vec![crate::props::c09::mk_radial(6, 3, 2)]);
                 let _ = mon::catch(|| a.merge(b).is_ok());
             }
+            #[cfg(feature = "data")]
             7 => {
                 // a record that claims to be bzip2 and is not; a multi-block stream that breaks off
                 // inside a later block (fails *after* producing output); a file shorter than its header
@@ -93,6 +94,7 @@ pub fn run(index: u64) {
                 let f = nexrad_data::volume::File::new(rng.bytes(n));
                 let _ = mon::catch(|| (f.records().len(), f.header().is_ok()));
             }
+            #[cfg(feature = "data")]
             8 => {
                 use nexrad_data::aws::realtime::{ChunkIdentifier, VolumeIndex};
                 let junk = ["", "x", "a-b-c", "20240101-000000-0x1-Q", "KDMX2024", "\u{65e5}\u{672c}\u{8a9e}\u{65e5}\u{672c}\u{8a9e}"];
